@@ -185,7 +185,7 @@ def run(ctx):
     ctx.rule = ("MinPathCover on random DAGs and MinPathCoverCycles on random cyclic digraphs (every edge on a source-to-sink walk), "
                 "edge and node cover type, ignore sets, additional starts/ends, constraints; non-trivial = optimum >= 2; "
                 "distinct by graph + arguments")
-    n = ctx.budget(150, 4000)
+    n = ctx.budget(150, 12000)
     for i in range(n):
         rng = ctx.rng("cov", i)
         cyclic = i % 2 == 1
